@@ -11,7 +11,7 @@ def gen_jobs(c, mode, apis, scale=1):
     for api in apis:
         n = HEAVY.get(api, 1) * scale
         if mode == "call":
-            n = max(1, n // 4)
+            n = max(1, n // (2 if c.tier == "thorough" else 4))
         for i in range(n):
             out = c.path("vec-%s-%s-%d.ndjson" % (mode, api, i))
             jobs.append(("OpsGen", {"VAPI": api, "VMODE": mode, "VTIER": c.tier, "VSHARDI": i, "VSHARDN": n, "VOUT": out}))
@@ -23,7 +23,7 @@ def run_ops(c, mode, apis=ALL_OPS, prop=None, scale=1):
     if os.environ.get("VERIF_APIS"):      # debugging aid: restrict the operations explored
         apis = [a for a in apis if a in os.environ["VERIF_APIS"].split(",")]
     jobs, outs = gen_jobs(c, mode, apis, scale)
-    n = c.gen_parallel(jobs)
+    n = c.gen_parallel(jobs, timeout=3000 if c.tier == "thorough" else 1500)
     c.note("generated", n, "operand tuples for", mode)
     pairs = [(o, o.replace("vec-", "ev-")) for o in outs]
     args = ["prop=" + prop] if prop else []
